@@ -49,6 +49,11 @@ pub(crate) fn parse_allowed_timezone_formats(s: &str) -> Option<TimeZone> {
 pub(crate) fn parse_identifier(source: &str) -> TemporalResult<TimeZone> {
     let mut cursor = source.chars().peekable();
     if let Some(offset) = parse_offset(&mut cursor)? {
+        // A time zone identifier is an offset of minute precision: `+HH`, `+HHMM` or `+HH:MM`.
+        if source.len() > 6 {
+            return Err(TemporalError::range()
+                .with_message("Time zone offset identifiers cannot have sub-minute precision"));
+        }
         return Ok(TimeZone::UtcOffset(UtcOffset(offset)));
     } else if parse_iana_component(&mut cursor) {
         return Ok(TimeZone::IanaIdentifier(source.to_owned()));
